@@ -24,11 +24,13 @@ import (
 	"bytes"
 	"container/list"
 	"encoding/binary"
+	"encoding/hex"
 	"fmt"
 	"runtime/debug"
 	"strings"
 	"sync/atomic"
 	"testing"
+	"time"
 
 	"github.com/33cn/chain33/common/log/log15"
 	"github.com/33cn/chain33/queue"
@@ -68,7 +70,7 @@ type c33Tx struct {
 }
 
 type c33Step struct {
-	Op string `json:"op"` // lb | pool | pass | tip | peermsg | block | tx | batch | raw | reply
+	Op string `json:"op"` // lb | pool | pass | tip | peermsg | block | tx | batch | raw | reply | fb | sweep
 	// lb: a light block as the peer builds it
 	Height    int64    `json:"height,omitempty"`
 	TxCount   int64    `json:"txCount,omitempty"`
@@ -85,6 +87,12 @@ type c33Step struct {
 	NTx int `json:"ntx,omitempty"`
 	// tx / batch
 	Txs []c33Tx `json:"txs,omitempty"`
+	// fb: blocks of one publishing peer with the blockchain module's verdict on each (a accept, r reject, i reject with an
+	// error the protocol ignores); Via block = full-block topic, resp = block responses on the peer topic (no validator);
+	// Each = one feedback pass after every block instead of one pass after the batch (verdicts for blocks in flight)
+	Verdicts string `json:"verdicts,omitempty"`
+	Via      string `json:"via,omitempty"`
+	Each     bool   `json:"each,omitempty"`
 	// raw
 	Topic int    `json:"topic,omitempty"`
 	Kind  string `json:"kind,omitempty"`
@@ -207,8 +215,9 @@ func c33Gen(t *rapid.T) c33Case {
 		c.GSizes = append(c.GSizes, rapid.IntRange(2, 4).Draw(t, "gsize"))
 	}
 	n := rapid.IntRange(3, 14).Draw(t, "steps")
+	var rejTotal [3]int // rejections per publisher in the whole case stay <= 12 (the deny time doubles with each)
 	for i := 0; i < n; i++ {
-		op := rapid.SampledFrom([]string{"lb", "lb", "lb", "lb", "pool", "pool", "pass", "pass", "tip", "peermsg", "peermsg", "block", "tx", "batch", "raw", "reply"}).Draw(t, "op")
+		op := rapid.SampledFrom([]string{"lb", "lb", "lb", "lb", "pool", "pool", "pass", "pass", "tip", "peermsg", "peermsg", "block", "tx", "batch", "raw", "reply", "fb", "fb", "fb", "sweep"}).Draw(t, "op")
 		s := c33Step{Op: op}
 		switch op {
 		case "lb":
@@ -253,6 +262,26 @@ func c33Gen(t *rapid.T) c33Case {
 		case "reply":
 			s.Seed = rapid.IntRange(0, 5).Draw(t, "seed")
 			s.From = rapid.IntRange(0, 2).Draw(t, "from")
+			if rejTotal[s.From]++; rejTotal[s.From] > 12 {
+				s.Seed = 1
+			}
+		case "fb":
+			// runs of accepts between rejects, 1..14 blocks of one publisher (at most 4 rejects: the deny time doubles)
+			s.From = rapid.IntRange(0, 2).Draw(t, "publisher")
+			n, rej := rapid.IntRange(1, 14).Draw(t, "blocks"), 0
+			for k := 0; k < n; k++ {
+				v := rapid.SampledFrom([]string{"a", "a", "a", "a", "a", "r", "r", "i"}).Draw(t, "verdict")
+				if v == "r" {
+					if rej, rejTotal[s.From] = rej+1, rejTotal[s.From]+1; rej > 4 || rejTotal[s.From] > 12 {
+						v = "a"
+					}
+				}
+				s.Verdicts += v
+			}
+			s.Via = rapid.SampledFrom([]string{"block", "resp", "resp"}).Draw(t, "via")
+			s.Each = rapid.Bool().Draw(t, "each")
+		case "sweep":
+			s.Kind = rapid.SampledFrom([]string{"now", "later"}).Draw(t, "when") // later: the deny times have run out
 		}
 		c.Steps = append(c.Steps, s)
 	}
@@ -268,7 +297,10 @@ type c33Runner struct {
 	f        *vfFix
 	v        *vfProto
 	w        *c33World
-	reached  bool  // some input passed the first decoding layer (reached the pool lookup / the pending or request list)
+	fbSeen   int            // verdicts of f.fbLog already accounted for
+	rejects  map[string]int // per publisher (Pretty): rejections with a non-ignored error handled so far
+	fbSerial int
+	reached  bool // some input passed the first decoding layer (reached the pool lookup / the pending or request list)
 }
 
 var c33Recovered int64 // panics swallowed by handleBroadcastReceive's own recover (counted from its log record)
@@ -335,8 +367,9 @@ func (r *c33Runner) deliver(topic string, raw []byte, from, publisher peer.ID) p
 			res = r.v.val.validateBatchTx(r.v.Ctx, from, m)
 		case psBlockTopic:
 			res = r.v.val.validateBlock(r.v.Ctx, from, m)
-		default:
+		case psLtBlockTopic:
 			res = r.v.val.validatePeer(r.v.Ctx, from, m)
+		default: // the node's own peer topic: pubSub.init registers no validator for it
 		}
 	})
 	if res == ps.ValidationAccept {
@@ -448,6 +481,66 @@ func (r *c33Runner) pass() {
 	r.guard("blockRequestLoop -> handleBlockReqList", "", "", func() { r.v.ltB.handleBlockReqList() })
 }
 
+// feedback is one waitMsgReplyTicker tick of validator.manageDeniedPeer (a goroutine without recover): the posted
+// broadcasts are taken over with copyMsgList, the blockchain module's reply to each is awaited and handed to
+// handleBroadcastReply (-> addDeniedPeer / reduceDeniedCount).  The five lines of the tick body are repeated here
+// because the body is inline in the loop's select; everything they call is the production code.
+// Oracle after the tick (validate.go: "a publisher whose broadcast is rejected is shielded for some time ... the time
+// grows exponentially with the error count ... afterwards it is a normal node again"): a publisher with a rejection
+// handled in this tick is denied now, for a positive and finite time (at most 2^(n+1) hours after n rejections).
+func (r *c33Runner) feedback() {
+	v, f := r.v, r.f
+	f.flush("blockchain")
+	r.guard("manageDeniedPeer (tick body) -> handleBroadcastReply", "", "", func() {
+		v.val.copyMsgList()
+		for _, bcMsg := range v.val.msgBuf {
+			msg, err := v.QueueClient.WaitTimeout(bcMsg.msg, 60*time.Second)
+			if msg == nil || err != nil {
+				lib.Inconclusive("no verdict from the blockchain responder: %v", err)
+			}
+			if reply, ok := msg.Data.(*types.Reply); ok {
+				v.val.handleBroadcastReply(reply, bcMsg)
+			}
+		}
+	})
+	f.mu.Lock()
+	fresh := append([]vfVerdict{}, f.fbLog[r.fbSeen:]...)
+	r.fbSeen = len(f.fbLog)
+	f.mu.Unlock()
+	hit := map[string]bool{}
+	for _, x := range fresh {
+		switch {
+		case x.verdict == "":
+			lib.Class("feedback_accept")
+		case x.verdict == types.ErrBlockExist.Error():
+			lib.Class("feedback_ignored_error")
+		default:
+			lib.Class("feedback_reject")
+			r.rejects[x.pid]++
+			hit[x.pid] = true
+		}
+	}
+	now := types.Now().Unix()
+	v.val.peerLock.RLock()
+	defer v.val.peerLock.RUnlock()
+	for id, info := range v.val.deniedPeers {
+		if n := r.rejects[id.Pretty()]; hit[id.Pretty()] {
+			if left := info.freeTimestamp - now; left <= 0 || left > int64(1)<<uint(n+1)*errBlockDenyTime+60 {
+				lib.Violation(r.t, "C33", r.test, r.c, "publisher %s had a broadcast rejected (rejection %d) but is now denied for %d s: not a positive, bounded time", id.Pretty(), n, left)
+			}
+		}
+	}
+	for pid := range hit {
+		found := false
+		for id := range v.val.deniedPeers {
+			found = found || id.Pretty() == pid
+		}
+		if !found {
+			lib.Violation(r.t, "C33", r.test, r.c, "publisher %s had a broadcast rejected but is not on the denied list", pid)
+		}
+	}
+}
+
 func (r *c33Runner) pendLen() int {
 	r.v.ltB.pdBlockLock.Lock()
 	defer r.v.ltB.pdBlockLock.Unlock()
@@ -533,9 +626,44 @@ func (r *c33Runner) step(s c33Step) {
 		r.deliver(psBatchTxTopic, r.encode(b), f.peers[0], f.peers[1])
 	case "raw":
 		r.deliver(r.topic(s.Topic), c33Raw(s.Kind, s.Seed), f.peers[0], f.peers[1])
+	case "fb":
+		pub := f.peers[s.From%3]
+		for _, vd := range s.Verdicts {
+			r.fbSerial++
+			b := f.vfBlock(f.tip+1, []*types.Transaction{vfTx(fmt.Sprintf("c33-fb-%d", r.fbSerial), 0)})
+			f.mu.Lock()
+			switch vd {
+			case 'r':
+				f.verdicts[hex.EncodeToString(b.Hash(f.cfg))] = "ErrBlockHashNoMatch"
+			case 'i':
+				f.verdicts[hex.EncodeToString(b.Hash(f.cfg))] = types.ErrBlockExist.Error()
+			}
+			f.mu.Unlock()
+			if s.Via == "block" {
+				r.deliver(psBlockTopic, r.encode(b), f.peers[(s.From+1)%3], pub)
+			} else {
+				r.deliver(v.psub.peerTopic, r.encode(&types.PeerPubSubMsg{MsgID: blockRespMsgID, ProtoMsg: types.Encode(b)}), f.peers[(s.From+1)%3], pub)
+			}
+			if s.Each {
+				r.feedback()
+			}
+		}
+		r.feedback()
+	case "sweep":
+		if s.Kind == "later" { // time passes: every deny period is over
+			v.val.peerLock.Lock()
+			for _, info := range v.val.deniedPeers {
+				info.freeTimestamp -= 20 * 365 * 24 * 3600
+			}
+			v.val.peerLock.Unlock()
+		}
+		r.guard("manageDeniedPeer -> recoverDeniedPeers", "", "", func() { v.val.recoverDeniedPeers() })
 	case "reply":
 		errs := []string{types.ErrMemFull.Error(), "", "ErrBlockHashNoMatch", types.ErrBlockExist.Error(), strings.Repeat("x", 5000), "\xff\xfe"}
 		qm := &queue.Message{Ty: []int64{types.EventTx, types.EventBroadcastAddBlock}[s.Seed%2]}
+		if s.Seed == 2 || s.Seed == 4 || s.Seed == 5 {
+			r.rejects[f.peers[s.From%3].Pretty()]++
+		}
 		r.guard("manageDeniedPeer -> handleBroadcastReply", "", "", func() {
 			v.val.handleBroadcastReply(&types.Reply{IsOk: s.Seed == 1, Msg: []byte(errs[s.Seed%len(errs)])}, &broadcastMsg{msg: qm, publisher: f.peers[s.From%3], hash: "h"})
 		})
@@ -630,7 +758,7 @@ func c33Run(t lib.TB, test string, c c33Case) (reached bool) {
 	c33HookLog()
 	v := f.newProto(3600 * 1000)
 	defer v.close()
-	r := &c33Runner{t: t, test: test, c: c, f: f, v: v, w: c33NewWorld(f, c.Salt, c.GSizes)}
+	r := &c33Runner{t: t, test: test, c: c, f: f, v: v, w: c33NewWorld(f, c.Salt, c.GSizes), rejects: map[string]int{}}
 	f.setChain(4)
 	v.handleAddBlock(&queue.Message{Data: &types.Block{Height: 4}})
 	for _, s := range c.Steps {
